@@ -87,7 +87,11 @@ Definition cnt_inc (w : nat) (l : list (nat * nat)) : list (nat * nat) :=
 (** what the application / the main loop does to the screen:
     - a redraw with a canvas whose tracked image views are [V] (the walk's result, see
       [walk_positions]) and whose other content is [base] (drawing the same canvas object
-      again is the redraw of the same view set: no view disappears, no row differs);
+      again is the redraw of the same view set: no view disappears, no row differs - PROVIDED
+      no disguise changed since: urwid returns early, writing nothing, when it is handed the
+      very canvas object it drew last (_raw_display_base.py:577), so a clear_images() call
+      followed by a draw_screen of the same canvas object is NOT a redraw in this sense: the
+      images stay cleared until a new canvas is drawn);
     - clear();
     - the public clear_images(widgets..., now=...) ([ws] empty = all images). *)
 Inductive sop := ORedraw (V : list view) (base : Z -> Z) | OClear | OApi (ws : list (nat * wkind)) (now : bool).
